@@ -21,9 +21,9 @@ ROOTF = {"J": "j", "I": "i", "A": "a"}
 INVS = ["MixinClassExists", "DepsBeforeDependants", "OrderIsModule", "DirectSpreadIsBase", "StrictOrKnown"]
 
 
-def cfg(nf, maxops, maxfields, dev, invs=INVS, export=0):
+def cfg(nf, maxops, maxfields, dev, invs=INVS, export=0, perms="AllPerms"):
     """export = N > 0: print (the case and the predicted outcome of) about one terminal state in N"""
-    return (f"SPECIFICATION Spec\nCONSTANTS NF = {nf}\n MaxOps = {maxops}\n MaxFields = {maxfields}\n Deviations <- {dev}\n"
+    return (f"SPECIFICATION Spec\nCONSTANTS NF = {nf}\n MaxOps = {maxops}\n MaxFields = {maxfields}\n NamePerms <- {perms}\n Deviations <- {dev}\n"
             + (f" SampleOneIn <- Sample{export}\n" if export else "")
             + "".join(f"INVARIANT {i}\n" for i in invs) + ("INVARIANT Export\n" if export else "")
             + "PROPERTY Monotone\nCHECK_DEADLOCK FALSE\n")
@@ -33,6 +33,7 @@ TRACE_CFG = """SPECIFICATION TraceSpec
 CONSTANTS NF = {nf}
  MaxOps = 2
  MaxFields = 2
+ NamePerms <- AllPerms
  Deviations <- NoDev
 INVARIANT MixinClassExists
 INVARIANT DepsBeforeDependants
@@ -98,7 +99,7 @@ def run(tier, work, replay=None):
             ("mc3", dict(cfg=cfg(3, 1, 1 if q else 2, "NoDeviations", export=1200 if q else 1500), workers=6)),
             ("dev", dict(cfg=cfg(2, 1, 2, "PreFix", invs=["MixinClassExists"]), workers=2))]
     if not q:
-        jobs.append(("mc4", dict(cfg=cfg(4, 1, 1, "NoDeviations"), workers=8)))
+        jobs.append(("mc4", dict(cfg=cfg(4, 1, 1, "NoDeviations", perms="TwoPerms"), workers=8)))
 
     def tj(j):
         name, kw = j
